@@ -1,5 +1,6 @@
 import os
 import copy
+import collections
 import hashlib
 import json
 
@@ -132,6 +133,8 @@ class DumperBase(DataStreamProcessor):
             )
             ret = self.row_counter(resource, ret)
             yield ret
+            # rows a later step did not ask for are part of the dump all the same
+            collections.deque(ret, maxlen=0)
 
         # Calculate datapackage hash
         if self.datapackage_hash:
